@@ -12,6 +12,7 @@ import (
 
 // Clause is one requires/ensures/invariant line.
 type Clause struct {
+	FromBase bool // behavior runs: clause of the base contract, already proved in the default run
 	Label string
 	Text  string
 	Expr  ast.Expr
@@ -43,6 +44,7 @@ type Behavior struct {
 	Assumes  []*Clause
 	Ensures  []*Clause
 	Loops    map[int]*LoopContract
+	Callsites []*CallsiteClause
 }
 
 type FuncContract struct {
@@ -59,6 +61,7 @@ type FuncContract struct {
 	GhostTypes []string
 	Checks     []*Clause // like ensures, but may name locals of the function; checked, never assumed by callers
 	Binds      []*Bind
+	Callsites  []*CallsiteClause
 	Loops      map[int]*LoopContract
 	Params     map[string]*ParamContract
 	Inline     bool
@@ -70,6 +73,12 @@ type FuncContract struct {
 	Line       string
 	Uses       []string // lemma names to assume inside
 	NoSharedAppend bool
+}
+
+// CallsiteClause is an obligation on the arguments of a call made by the function (matched by the call's source text prefix).
+type CallsiteClause struct {
+	CallText string
+	Req      *Clause
 }
 
 // Bind instantiates a ghost parameter for the calls made while evaluating a call expression of the given source text.
@@ -88,7 +97,7 @@ type PureDef struct {
 	ResType   string
 	Body      *Clause
 	Rec       bool
-	Trigger    *Clause
+	Triggers   []*Clause
 	InductVar  string
 	InductUpto *Clause
 	Opaque    bool // declared only (uninterpreted), axioms given separately
@@ -148,7 +157,7 @@ var clauseKeywords = map[string]bool{
 	"writes": true, "loop": true, "invariant": true, "decreases": true, "param": true,
 	"inline": true, "terminates": true, "pure": true, "purerec": true, "axiom": true,
 	"ghost": true, "ghostfn": true, "lemma": true, "extern": true, "functype": true,
-	"trusted": true, "opaque": true, "noshare": true, "ghostparam": true, "check": true, "bind": true, "behavior": true, "assumes": true, "index": true, "use": true,
+	"trusted": true, "opaque": true, "noshare": true, "ghostparam": true, "check": true, "bind": true, "behavior": true, "assumes": true, "callsite": true, "index": true, "use": true,
 }
 
 // rewriteImplies converts "A ==> B" to "implies(A, B)" and "A <==> B" to "iff(A,B)" at every nesting level.
@@ -489,6 +498,31 @@ func (cs *Contracts) loadFile(path, pkgPath string) error {
 				return err
 			}
 			cur.Checks = append(cur.Checks, c)
+		case "callsite":
+			// callsite "call text prefix" requires[label] expr
+			rest := strings.TrimSpace(l.rest)
+			if !strings.HasPrefix(rest, "\"") {
+				return fmt.Errorf("%s: callsite syntax: callsite \"text\" requires[label] expr", l.where)
+			}
+			j := strings.Index(rest[1:], "\"")
+			if j < 0 {
+				return fmt.Errorf("%s: callsite: unterminated text", l.where)
+			}
+			callText := rest[1 : 1+j]
+			rest = strings.TrimSpace(rest[2+j:])
+			if !strings.HasPrefix(rest, "requires") {
+				return fmt.Errorf("%s: callsite needs requires", l.where)
+			}
+			c, err := mkClause(strings.TrimPrefix(rest, "requires"), l.where)
+			if err != nil {
+				return err
+			}
+			cc := &CallsiteClause{CallText: callText, Req: c}
+			if curBeh != nil {
+				curBeh.Callsites = append(curBeh.Callsites, cc)
+			} else {
+				cur.Callsites = append(cur.Callsites, cc)
+			}
 		case "bind":
 			// bind "call text" name = expr
 			rest := strings.TrimSpace(l.rest)
@@ -633,11 +667,13 @@ func (cs *Contracts) loadFile(path, pkgPath string) error {
 			pd.ParamName, pd.ParamType = splitParams(m[2])
 			mid := strings.TrimSpace(m[3])
 			if i := strings.Index(mid, "trigger "); i >= 0 {
-				tc, err := mkClause(mid[i+8:], l.where)
-				if err != nil {
-					return err
+				for _, part := range splitTop(mid[i+8:], ",") {
+					tc, err := mkClause(part, l.where)
+					if err != nil {
+						return err
+					}
+					pd.Triggers = append(pd.Triggers, tc)
 				}
-				pd.Trigger = tc
 				mid = strings.TrimSpace(mid[:i])
 			}
 			if strings.HasPrefix(mid, "induct ") {
